@@ -1,10 +1,10 @@
-\* named deviation (must be refuted): embedded view batch count = len/96, as before 1115b56 -> ASSUME ReaderWriterAgree false
+\* named deviation (must be refuted): tracks with ranges but neither timestamps nor values are not preserved (as coded in collect_*_track_data; finding C13-RANGES-ONLY-TRACK-DROPPED) -> ASSUME ArraysPreserved false
 CONSTANT SubmeshStep = 48
 CONSTANT AnimBoneRule = "table"
 CONSTANT RelocAdvanceAlways = FALSE
-CONSTANT CollectSkipRule = "all-empty"
+CONSTANT CollectSkipRule = "no-keys"
 CONSTANT SaveTruncates = TRUE
-CONSTANT ViewBatchBytes = 96
+CONSTANT ViewBatchBytes = 24
 INIT Init
 NEXT Next
 INVARIANT CursorIsEmitted
